@@ -55,6 +55,9 @@ func (sc *Scenario) Desc() string {
 		if p.Shape.NoCRLSign {
 			b.WriteString(" nocrlsign")
 		}
+		if p.Shape.NoEKU {
+			b.WriteString(" noeku")
+		}
 	}
 	return b.String()
 }
